@@ -216,6 +216,44 @@ def endtoend(chk):
                               "conditions" % (csel, csel2),
                               {"selector": csel, "second": csel2, "args": [n, k, c], "got": list(ys), "want": want_y})
             chk.count(("ov2", csel, csel2, n, k, c), nontrivial=any(pfn(i) != pfn2(i) for i in range(n)))
+    # ---- conditions on a variable of a function BELOW the outermost one that is bound after the focus: every
+    # activation starts with nothing captured (what an earlier activation under the same outer call captured
+    # constrains nothing); the expectation is computed from the program, not from another probe
+    def f_events(n, k, c):
+        evs, y = [{"x": c}], None
+        for i in range(n):
+            x = i * k + c
+            evs.append({"x": x} if y is None else {"x": x, "y": y})
+            y = x - i
+        return evs
+    for (ptxt, pfn) in preds[:max(8, len(preds) // 4)]:
+        n, k, c, a0 = rng.randrange(1, 6), rng.randrange(-2, 4), rng.randrange(-3, 4), rng.randrange(-3, 6)
+        csel = "g > f(y%s) > x" % ptxt
+        with ptera.probing(csel, env=env).values() as co:
+            mod.g(a0, n, k, c)
+        want = [ev for ev in f_events(n, k, c) + f_events(n, k + 1, c) if "y" not in ev or pfn(ev["y"])]
+        chk.count((csel, n, k, c, a0), nontrivial=True)
+        chk.dist("e2e:condition on a variable bound after the focus, below the outermost call")
+        if list(co) != want:
+            chk.violation("oracle", "selector %r delivered %s, the stated filter gives %s" % (csel, str(list(co))[:120], str(want)[:120]),
+                          {"selector": csel, "args": [a0, n, k, c], "got": list(co), "want": want})
+    # ---- cumulative probes: a capture holds every value the variable took; the record is delivered iff EVERY one
+    # of them satisfies the condition
+    for (ptxt, pfn) in preds[:max(8, len(preds) // 4)] + [("=%d" % v, (lambda w, v=v: w == v)) for v in (0, 1, 2)]:
+        n, k, c = rng.randrange(0, 5), rng.randrange(-2, 4), rng.randrange(-3, 4)
+        csel, usel = "f(i%s, x)" % ptxt, "f(i, x)"
+
+        def records(sel):
+            with ptera.probing(sel, env=env, probe_type="total", raw=True).values() as recs:
+                mod.f(n, k, c)
+            return [{kk: list(cap.values) for kk, cap in r.items()} for r in recs]
+        un, co = records(usel), records(csel)
+        want = [r for r in un if all(pfn(v) for v in r.get("i", []))]
+        chk.count((csel, "total", n, k, c), nontrivial=bool(un) and want != un)
+        chk.dist("e2e:cumulative probe")
+        if co != want:
+            chk.violation("oracle", "cumulative selector %r delivered %s, the stated filter gives %s" % (csel, str(co)[:120], str(want)[:120]),
+                          {"selector": csel, "probe_type": "total", "args": [n, k, c], "got": co, "want": want})
     chk.cov["oracle"]["e2e_selectors"] = len(preds)
     chk.cov["oracle"]["e2e_events_seen"] = n_events
     chk.sample({"e2e_selector": shapes[0][0].replace("{P}", preds[0][0])})
